@@ -653,7 +653,18 @@ fn check_counters(what: &str, span_len: usize, dfa: bool, max_fail_seen: &mut u6
         return Err(format!("{}: {} prefilter invocations for a span of {} bytes", what, c.prefilter_calls, span_len));
     }
     *max_fail_seen = (*max_fail_seen).max(c.fail_links);
+    HOOK_SEEN.with(|h| {
+        let (t, f, p) = h.get();
+        h.set((t || c.transitions > 0, f || c.fail_links > 0, p || c.prefilter_calls > 0));
+    });
     Ok(())
+}
+
+thread_local! {
+    /// whether the instrumentation reported anything during the current case
+    /// (coverage classes only: a refactor that drops a hook call site must be
+    /// noticed as a coverage warning, it is not a violation)
+    static HOOK_SEEN: std::cell::Cell<(bool, bool, bool)> = std::cell::Cell::new((false, false, false));
 }
 
 fn budget_msg(p: String, what: &str) -> String {
@@ -747,6 +758,16 @@ fn c19_check(case: &Case, ctx: &mut Ctx) -> Result<(), String> {
         ctx.class("prefilter:on");
     }
     ctx.count("max_fail_links_sum", max_fail);
+    let (t, f, p) = HOOK_SEEN.with(|h| h.replace((false, false, false)));
+    if t {
+        ctx.class("hook:transitions-counted");
+    }
+    if f {
+        ctx.class("hook:fail-links-counted");
+    }
+    if p {
+        ctx.class("hook:prefilter-calls-counted");
+    }
     if span_len >= 8 && max_fail as usize >= span_len / 4 {
         ctx.class("failure-chain-exercised");
         ctx.nontrivial();
@@ -823,7 +844,15 @@ Non-trivial = span >= 8 and some measured call followed >= span/4 failure links 
     strategy: c19_strategy,
     check: c19_check,
     extra: None,
-    floors: &[("failure-chain-exercised", 15_000), ("dfa", 20_000), ("anchored", 20_000), ("gen:adversarial+chain-haystack", 30_000)],
+    floors: &[
+        ("failure-chain-exercised", 15_000),
+        ("dfa", 20_000),
+        ("anchored", 20_000),
+        ("gen:adversarial+chain-haystack", 30_000),
+        ("hook:transitions-counted", 100_000),
+        ("hook:fail-links-counted", 50_000),
+        ("hook:prefilter-calls-counted", 50_000),
+    ],
 };
 
 // ------------------------------------------------------------------ C20
